@@ -167,12 +167,12 @@ def compare(case, obs, model, probes):
 
 # ---- generators ------------------------------------------------------------------------
 
-def mk_case(events, tick=1, lat=1, seed=1, random_order=False, twin=True, flavour="crash"):
-    return {"cfg": {"tick_ms": tick, "lat_ms": lat, "seed": seed, "random_order": random_order},
+def mk_case(events, tick=1, lat=1, seed=1, random_order=False, twin=True, flavour="crash", mc=()):
+    return {"cfg": {"tick_ms": tick, "lat_ms": lat, "seed": seed, "random_order": random_order, "mc_members": list(mc)},
             "events": events, "twin": twin, "fam": "crash", "flavour": flavour}
 
 
-def crash_points(tick, lat, who, total=22, bounce_after=(None, 0, 1, 4), seed=1):
+def crash_points(tick, lat, who, total=22, bounce_after=(None, 0, 1, 4), seed=1, mc=(), flavour="crash-points"):
     """Crash `who` after i steps for every i, optionally bounce after j more steps."""
     out = []
     for i in range(0, 16):
@@ -181,7 +181,21 @@ def crash_points(tick, lat, who, total=22, bounce_after=(None, 0, 1, 4), seed=1)
             if j is not None:
                 ev += [["step"]] * j + [["bounce", who]]
             ev += [["step"]] * (total - i) + [["probe"]]
-            out.append(mk_case(ev, tick, lat, seed + i, (i + (j or 0)) % 3 == 0, flavour="crash-points"))
+            out.append(mk_case(ev, tick, lat, seed + i, (i + (j or 0)) % 3 == 0, flavour=flavour, mc=mc))
+    return out
+
+
+def multicast_points():
+    """One, two and three members of the group 239.1.1.1:9100 (n0 always, n2 / n3
+    optionally): crash / bounce ONE member at every step index; bounce without crash too."""
+    out = []
+    for mc in ((2,), (2, 3), ()):
+        victims = [{"h": 0}] + ([{"re": "^n2$"}] if 2 in mc else [])
+        for who in victims:
+            out += crash_points(1, 1, who, bounce_after=(None, 2), mc=mc, flavour="crash-multicast")
+            for i in range(0, 16, 3):       # bounce without crash
+                ev = [["step"]] * i + [["bounce", who]] + [["step"]] * (22 - i) + [["probe"]]
+                out.append(mk_case(ev, 1, 2, 40 + i, False, flavour="crash-multicast", mc=mc))
     return out
 
 
@@ -214,12 +228,16 @@ def gen_random(rng):
         else:
             ev.append(["step"])
     ev += [["step"]] * 10 + [["probe"]]
-    return mk_case(ev, tick, lat, rng.randrange(1 << 30), rng.random() < 0.4, flavour="crash-random")
+    return mk_case(ev, tick, lat, rng.randrange(1 << 30), rng.random() < 0.4, flavour="crash-random",
+                   mc=rng.choice([(), (2,), (2,), (2, 3), (3,)]))
 
 
 def histogram(cases):
-    h = {"cases": len(cases), "events": {}, "victims": {}, "ticks_ms": {}, "lat_ms": {}, "flavours": {}, "selectors": {"h": 0, "ip": 0, "re": 0}}
+    h = {"cases": len(cases), "events": {}, "victims": {}, "ticks_ms": {}, "lat_ms": {}, "flavours": {}, "selectors": {"h": 0, "ip": 0, "re": 0},
+         "multicast_members": {}}
     for c in cases:
+        nm = str(1 + len(c["cfg"].get("mc_members", [])))
+        h["multicast_members"][nm] = h["multicast_members"].get(nm, 0) + 1
         h["flavours"][c.get("flavour", "?")] = h["flavours"].get(c.get("flavour", "?"), 0) + 1
         h["ticks_ms"][str(c["cfg"]["tick_ms"])] = h["ticks_ms"].get(str(c["cfg"]["tick_ms"]), 0) + 1
         h["lat_ms"][str(c["cfg"]["lat_ms"])] = h["lat_ms"].get(str(c["cfg"]["lat_ms"]), 0) + 1
@@ -234,4 +252,4 @@ def histogram(cases):
 
 
 def case_signature(case):
-    return json.dumps([case["cfg"]["tick_ms"], case["cfg"]["lat_ms"], case["events"]], sort_keys=True)
+    return json.dumps([case["cfg"]["tick_ms"], case["cfg"]["lat_ms"], case["cfg"].get("mc_members", []), case["events"]], sort_keys=True)
